@@ -25,6 +25,9 @@ def cells(tier):
         out.append(cell(f"s{size} starmaps call A1", sc, MON))
         sc = scen(pool(size, "SimpleTaskPool"), [[S("S", 2), S("T", 1)], [cgroup("S"), S("U", 1)]], outcomes=["ret"])
         out.append(cell(f"simple s{size} S2,T1|cgroupS,U1", sc, MON))
+    for size in [1, 2]:
+        sc = scen(pool(size), [[A("A", 3)], [A("B", 2)], [cgroup("A"), A("C", 2)]], outcomes=["ret"])
+        out.append(cell(f"s{size} A3|B2|cgroupA,C2 (cancelled waiting spawner)", sc, MON))
     if not q:
         for size in [1, 2]:
             sc = scen(pool(size), [[A("A", 2)], [A("B", 2)], [A("C", 1)], [cgroup("B"), A("D", 2)], [cancel(rid("A", 0))]], outcomes=["ret", "exc"])
